@@ -466,6 +466,7 @@ charnos_tail = Unit(
     exc_mode={"IndexError": "oblige", "TypeError": "oblige", "ValueError": "oblige"},
 )
 charnos_tail.key_suffix = "offsets"
+charnos_tail.z3_timeout_ms = 90000     # the trailing-space post takes ~20 s on an idle machine; the verdict must not depend on the load
 
 
 def g_leading_lt(eng, args, kw, env, pc, node):
